@@ -1,5 +1,5 @@
 (* Extraction of the roaming-fence model (C20). ExtrOcamlBasic only. *)
 From Coq Require Import Extraction ExtrOcamlBasic.
-From T38 Require Import Base.Bytes Model.Glob Model.Roam Model.Fence Model.HookReg Model.HookRegOps.
+From T38 Require Import Base.Bytes Model.Glob Model.Roam Model.Fence Model.HookReg Model.HookRegOps Model.RoamSet Model.HookDef Gen.HookEquals.
 Extraction Language OCaml.
-Extraction "model.ml" Z.add Z.of_N Nat.add is_glob roam_parse roam_msgs fence_match_roam round_mm scan_ids reg_run roam_hook selected.
+Extraction "model.ml" Z.add Z.of_N Nat.add is_glob roam_parse roam_msgs fence_match_roam round_mm scan_ids reg_run roam_hook selected set_details old_as_is hook_equals_by equals_checks.
